@@ -5,7 +5,7 @@ from checks.models import ALL_MODELS, TOL_BY_MODEL, EXTRA_ARGS
 
 CHECK = Check(
     "C04",
-    props_modules=["OW.Props.C04"],
+    props_modules=["OW.Props.C04", "OW.Props.C04Nd"],
     families=[Family("W", rtol=1e-9, atol_scale=1e-12, tol_by_model=TOL_BY_MODEL, args=["models=" + ",".join(ALL_MODELS), "n=12"] + EXTRA_ARGS)],
     level="proof",
     trusted=[
@@ -18,15 +18,23 @@ CHECK = Check(
         "C09: the 41 wrappers are the template's expansion; C01/C02: the view algebra the template relies on",
         "kernel models (OW/Kernels/*) are parameters of these theorems; their own correspondence is checked by the kernel-level properties",
     ],
-    assumptions=["the states array is at least as wide as every cell's state vector (a narrower array makes the code copy past the row; caller error)",
+    assumptions=["C04Nd (view-level refinement): root arrays with extents >= 1 in different storages, T <= T' (output array at least as long as the "
+                 "series), kernel results fit the arrays (at most nO series of at most T values, at most nS states); wrapperNd_refines / runNd_refines "
+                 "cover scalar-parameter specs (table parameters: view-level fact param_decoding_table only)",
+                 "the states array is at least as wide as every cell's state vector (a narrower array makes the code copy past the row; caller error)",
                  "table-valued parameters have at most one dimension (true of all 41 specs)"],
-    partial=["single_cell_eq for table-valued parameters: the layout lemma is proved for all-scalar specs (layout_scalar, cellParams_scalar); "
+    partial=["wrapperNd_refines for table-valued parameters: cellParams' table branch is not connected to param_decoding_table yet",
+             "single_cell_eq for table-valued parameters: the layout lemma is proved for all-scalar specs (layout_scalar, cellParams_scalar); "
              "for tables the per-cell decoding is covered by the correspondence and by the in-worker single-cell oracle only"],
 )
 
 META = dict(
     category="proof",
-    text="Lean 4 theorems over the wrapper semantics, for every kernel, layout, cell count, set/block count: runCells_spec (the N-cell run is "
+    text="Lean 4 theorems (a) over the template's VIEW construction on the verified n-d array model (OW/Sim/WrapperNd.lean; C04Nd: the state, "
+         "input and output views of cell i alias exactly rows i / block i % nIn of the caller's arrays, also for oversized output arrays; "
+         "parameter decoding incl. the rank-1 slice of table parameters; write footprints of different cells disjoint; every reshape the "
+         "template performs is on a contiguous view; one cell step and the whole sequential Run REFINE the list-level semantics) and "
+         "(b) over the list-level wrapper semantics, for every kernel, layout, cell count, set/block count: runCells_spec (the N-cell run is "
          "exactly cellStep on each cell's own state row and output rows; rows of cells that do not run untouched), cellStep_frame (lengths "
          "kept, timesteps/state columns beyond what the kernel returns untouched), cellStep_input_block (block i % nBlocks), "
          "layout_scalar/cellParams_scalar (parameter j of cell i is parameters[j][i % nSets]). The semantics is tied to the real "
